@@ -131,12 +131,19 @@ fn stress<W: Write>(n: usize, m: usize, locked: bool, out: &mut W) {
             *sum.lock().unwrap() += *v;
         }));
     }
+    // a cyclic structure (accumulator) on a merge of all sinks, sampled by the workers
+    let mut merged = sinks[0].stream();
+    for s in &sinks[1..] {
+        merged = merged.merge(&s.stream(), |a: &i64, b: &i64| a + b);
+    }
+    let acc = merged.accum(0i64, |a: &i64, s: &i64| a + s);
     let big = Arc::new(Mutex::new(()));
     let panics = Arc::new(Mutex::new(0u32));
     let mut hs = Vec::new();
-    for (i, s) in sinks.iter().enumerate() {
-        let s = s.clone();
-        let ctx = ctx.clone();
+    // every handle a worker needs is cloned BEFORE any worker starts: in the locked variant no operation on
+    // the context (a clone counts) may run concurrently with a transaction
+    let prepared: Vec<_> = sinks.iter().map(|s| (s.clone(), acc.clone(), ctx.clone())).collect();
+    for (i, (s, acc, ctx)) in prepared.into_iter().enumerate() {
         let big = big.clone();
         let panics = panics.clone();
         hs.push(std::thread::spawn(move || {
@@ -149,16 +156,33 @@ fn stress<W: Write>(n: usize, m: usize, locked: bool, out: &mut W) {
                         let c = s.stream().map(|x: &i64| *x + 1);
                         drop(c);
                     });
+                    // a private accumulator (reference cycle) built, used and dropped on this thread
+                    if k % 16 == 0 {
+                        let own = s.stream().accum(0i64, |a: &i64, st: &i64| a + st);
+                        let _ = own.sample();
+                        drop(own);
+                    }
+                    let _ = acc.sample();
                 }));
-                if r.is_err() {
-                    *panics.lock().unwrap() += 1;
+                if let Err(p) = r {
+                    let mut pc = panics.lock().unwrap();
+                    if *pc == 0 {
+                        eprintln!("first panic in worker {}: {}", i, crate::gc::payload_msg(&p));
+                    }
+                    *pc += 1;
                 }
             }
+            // the worker drops its clones (of a cyclic structure too) as its last action, under the lock
+            let _g = if locked { Some(big.lock().unwrap()) } else { None };
+            drop(acc);
+            drop(s);
         }));
     }
     for h in hs {
         let _ = h.join();
     }
+    drop(acc);
+    drop(merged);
     let expected: i64 = (0..n).map(|i| (0..m).map(|k| (i * 1000 + k) as i64).sum::<i64>()).sum();
     let c = counts.lock().unwrap().clone();
     // tear everything down on the main thread: the accounting must come back to zero
